@@ -244,7 +244,8 @@ Fixpoint workload_ivs (c : nat) (busy : list (wref * busyent)) (k : pbkind)
 
 Definition punavail_one (bs be : term) (lo hi period start offset : Z) (end_ : option Z) : form :=
   let folded := TMod (TSub bs (TC offset)) (TC period) in
-  let c := FXor (FGe folded (TC hi)) (FLe (TAdd [folded; TSub be bs]) (TC lo)) in
+  let c := FOr [FLe (TAdd [folded; TSub be bs]) (TC lo);
+                FAnd [FGe folded (TC hi); FLe (TAdd [folded; TSub be bs]) (TC (lo + period))]] in
   let conds := [c] ++ (if start >? 0 then [FLe be (TC start)] else [])
                    ++ (match end_ with Some e => [FGe bs (TC e)] | None => [] end) in
   match conds with [_] => c | _ => FOr conds end.
@@ -263,12 +264,11 @@ Definition interrupted_worker (w : wref) (busy : list busyent) (ivs : list (Z * 
     | _ => map (fun '(lo, hi) => FXor (FGe bs (TC hi)) (FLe be (TC lo))) ivs
     end) busy).
 
-(* ResourcePeriodicallyInterrupted, one worker; last = the busy interval whose variables
-   the Python loop variables still hold when this worker has none *)
+(* ResourcePeriodicallyInterrupted, one worker: one conjunct per busy interval, each with its own activity mask *)
 Definition pinterrupted_worker (w : wref) (busy : list busyent) (ivs : list (Z * Z))
-           (period start offset : Z) (end_ : option Z) (last : option (wref * busyent)) : form :=
+           (period start offset : Z) (end_ : option Z) : form :=
   let P := TC period in
-  let conds := flat_map (fun b =>
+  FAnd (map (fun b =>
     let bs := bsv w b in let be := bev w b in let t := be_task b in
     let dur := TSub be bs in
     let fs := TMod (TSub bs (TC offset)) P in
@@ -280,32 +280,20 @@ Definition pinterrupted_worker (w : wref) (busy : list busyent) (ivs : list (Z *
         let ovc := FOr [crossing; FGt dur (TC (lo + period - hi))] in
         let crossings := TIte crossing (TAdd [TDiv dur P; TC 1]) (TDiv dur P) in
         TIte ovc (TMul (TC (hi - lo)) crossings) (TC 0)) ivs in
-    match ti_kind t with
-    | KVar mn mx _ =>
-        flat_map (fun '(lo, hi) =>
-          [FXor (FLe fs (TC lo)) (FGe fs (TC hi)); FXor (FLe fe (TC lo)) (FGe fe (TC hi))]) ivs
-        ++ [FGe (D_ t) (TAdd [TC mn; TAdd overlaps])]
-        ++ (match mx with Some m => [FLe (D_ t) (TAdd [TC m; TAdd overlaps])] | None => [] end)
-    | _ => map (fun '(lo, hi) => FXor (FGe fs (TC hi)) (FLe (TAdd [fs; dur]) (TC lo))) ivs
-    end) busy in
-  let core := FAnd conds in
-  (* the mask uses the loop variables left over from the last busy interval *)
-  match (match rev busy with b :: _ => Some (w, b) | [] => last end) with
-  | None => core
-  | Some (w', b) =>
-      let mask := [core] ++ (if start >? 0 then [FLe (bev w' b) (TC start)] else [])
-                         ++ (match end_ with Some e => [FGe (bsv w' b) (TC e)] | None => [] end) in
-      match mask with [_] => core | _ => FOr mask end
-  end.
-Fixpoint pinterrupted_units (us : list (wref * list busyent)) (ivs : list (Z * Z))
-         (period start offset : Z) (end_ : option Z) (last : option (wref * busyent)) : list form :=
-  match us with
-  | [] => []
-  | (w, l) :: r =>
-      pinterrupted_worker w l ivs period start offset end_ last
-      :: pinterrupted_units r ivs period start offset end_
-           (match rev l with b :: _ => Some (w, b) | [] => last end)
-  end.
+    let task_conds :=
+      match ti_kind t with
+      | KVar mn mx _ =>
+          flat_map (fun '(lo, hi) =>
+            [FXor (FLe fs (TC lo)) (FGe fs (TC hi)); FXor (FLe fe (TC lo)) (FGe fe (TC hi))]) ivs
+          ++ [FGe (D_ t) (TAdd [TC mn; TAdd overlaps])]
+          ++ (match mx with Some m => [FLe (D_ t) (TAdd [TC m; TAdd overlaps])] | None => [] end)
+      | _ => map (fun '(lo, hi) => FOr [FLe (TAdd [fs; dur]) (TC lo);
+                                       FAnd [FGe fs (TC hi); FLe (TAdd [fs; dur]) (TC (lo + period))]]) ivs
+      end in
+    let core := FAnd task_conds in
+    let mask := [core] ++ (if start >? 0 then [FLe be (TC start)] else [])
+                       ++ (match end_ with Some e => [FGe bs (TC e)] | None => [] end) in
+    match mask with [_] => core | _ => FOr mask end) busy).
 
 Definition nondelay_like (c : nat) (starts ends : list term)
            (mk : term -> term -> form) : list form :=
@@ -340,13 +328,9 @@ Definition check_c (e : rcexpr) : bool :=
   | CPeriodicUnavailable r ivs _ _ _ _ =>
       negb (match all_busy r with [] => true | _ => false end)
       && negb (match ivs with [] => true | _ => false end)
-  | CPeriodicInterrupted r ivs period start _ end_ =>
+  | CPeriodicInterrupted r ivs period _ _ _ =>
       negb (match all_busy r with [] => true | _ => false end)
       && forallb (fun '(lo, hi) => hi <=? period) ivs
-      (* the activity mask reads the loop variables of the last busy interval seen so far:
-         NameError when the first worker has none *)
-      && (negb ((start >? 0) || (match end_ with Some _ => true | None => false end))
-          || negb (match rs_units r with (_, []) :: _ => true | _ => false end))
   | CDistance r _ _ _ => (2 <=? Z.of_nat (length (rs_own r)))
   | CIndBounds _ lo hi => match lo, hi with None, None => false | _, _ => true end
   | _ => true
@@ -404,7 +388,7 @@ Definition enc_raw (c : nat) (e : rcexpr) : list form :=
         map (fun '(w, b) => punavail_one (bsv w b) (bev w b) lo hi period start offset end_) (all_busy r)) ivs
   | CInterrupted r ivs => map (fun '(w, l) => interrupted_worker w l ivs) (rs_units r)
   | CPeriodicInterrupted r ivs period start offset end_ =>
-      pinterrupted_units (rs_units r) ivs period start offset end_ None
+      map (fun '(w, l) => pinterrupted_worker w l ivs period start offset end_) (rs_units r)
   | CNonDelay r =>
       let o := own_w r in
       nondelay_like c (map (fun b => BS o (ti_id (be_task b)) (be_maybe b)) (rs_own r))
